@@ -6,6 +6,13 @@ sys.path.insert(0, V); sys.path.insert(0, os.path.join(V, "lib"))
 import obligations
 from claims import CLAIMS, NOT_APPLICABLE
 props = [json.loads(l) for l in open(os.path.join(V, "properties.jsonl"))]
+import obligations as _ob
+BASE = {}
+for _name, _lst in (("INV base case", _ob.INV_BASE_CASE), ("limit sweep", _ob.LIMIT_BASE_CASE), ("whole-parse differential", tuple(_ob.DIFF_BASE_CASE)), ("WPT URL vectors", _ob.WPT_BASE_CASE),
+                    ("setter sweep", _ob.SETTER_BASE_CASE), ("setter sweep under limits", _ob.SETTER_LIMIT_BASE_CASE), ("sort beyond 16 elements", _ob.SORT_BASE_CASE),
+                    ("WPT URLPattern corpus with forced-regexp differential", _ob.URLPATTERN_BASE_CASE), ("NFC vs unicodedata + WPT to_ascii vectors", _ob.IDNA_BASE_CASE)):
+    for _p in _lst:
+        BASE.setdefault(_p, []).append(_name)
 checks = []
 na = []
 for p in props:
@@ -21,7 +28,8 @@ for p in props:
             "engine": "ll2c+cbmc",
             "level_claimed": {"category": "model_checking", "text": c["text"], "design_ref": c.get("design_ref", "DESIGN.md §4")},
             "level_note": c["note"],
-            "technique": c.get("technique", "bounded symbolic execution of the real code: clang-14 LLVM IR of /repo -> own IR-to-C translator (ll2c) -> CBMC 6.11 (SAT), counterexamples replayed natively"),
+            "technique": c.get("technique", "bounded symbolic execution of the real code: clang-14 LLVM IR of /repo -> own IR-to-C translator (ll2c) -> CBMC 6.11 (SAT: MiniSat2 / kissat), counterexamples replayed natively against the object code of the same IR"
+                                  + ("; accompanied by native corpus base cases against the real object code (" + ", ".join(BASE[pid]) + "), reported separately and not counted as solver evidence" if BASE.get(pid) else "")),
         })
     else:
         na.append({"property_id": pid, "reason": NOT_APPLICABLE.get(pid, "no check registered yet for this property in this revision of the framework (work in progress; see DESIGN.md)")})
